@@ -9,23 +9,24 @@ V=$(pwd); N=${1:-3000}
 export CARGO_NET_OFFLINE=true CARGO_TARGET_DIR=$V/.cache/target-cov RUSTFLAGS="-C instrument-coverage --cfg pelite_verif"
 TC=nightly
 BIN=$(dirname $(rustup +$TC which rustc))/../lib/rustlib/x86_64-unknown-linux-gnu/bin
-( cd harness && cargo +$TC build --offline --bins 2>&1 | tail -2 )
+# proc-macro crates are instrumented too and write a profile from inside rustc (cwd = the crate): keep those out of /repo
+( cd harness && LLVM_PROFILE_FILE=$V/.cache/cov-build-%p.profraw cargo +$TC build --offline --bins 2>&1 | tail -2 ); rm -f $V/.cache/cov-build-*.profraw
 P=$V/.cache/cov-prof; rm -rf $P; mkdir -p $P
 for b in c14 convert cstrfmt dirs exports headers imports iters pattern resources rich scanner strings versioninfo views walker wrapjson; do
   exe=$CARGO_TARGET_DIR/debug/$b
   [ -x $exe ] || continue
   for k in 0 1 2 3 4 5 6 7; do
-    ( LLVM_PROFILE_FILE=$P/$b-$k-%p.profraw PVH_CASE_SECONDS=10 timeout 600 $exe gen ${VERIF_SEED:-0} $((k*N/8)) $((N/8)) > /dev/null 2>&1 ) &
+    ( LLVM_PROFILE_FILE=$P/$b-$k-%p.profraw PVH_CASE_SECONDS=200 timeout 900 $exe gen ${VERIF_SEED:-0} $((k*N/8)) $((N/8)) > /dev/null 2>&1 ) &
   done
   wait
 done
 for pid in C01 C02 C03 C04 C05 C06 C07 C08 C09 C10 C11 C12 C13 C14 C15 C16 C18 C19 C20; do
   binname=$(python3 -c "import sys; sys.path.insert(0,'lib'); from props import PROPS; print(PROPS['$pid'].get('bin',''))")
   [ -n "$binname" ] || continue
-  for f in corpus/$pid/*.case; do [ -f "$f" ] && LLVM_PROFILE_FILE=$P/corpus-%p.profraw PVH_CASE_SECONDS=10 timeout 120 $CARGO_TARGET_DIR/debug/$binname replay $f > /dev/null 2>&1; done
+  for f in corpus/$pid/*.case; do [ -f "$f" ] && LLVM_PROFILE_FILE=$P/corpus-%p.profraw PVH_CASE_SECONDS=200 timeout 300 $CARGO_TARGET_DIR/debug/$binname replay $f > /dev/null 2>&1; done
 done
 $BIN/llvm-profdata merge -sparse $P/*.profraw -o $P/all.profdata 2>/dev/null
 OBJS=""; for b in $CARGO_TARGET_DIR/debug/{c14,convert,cstrfmt,dirs,exports,headers,imports,iters,pattern,resources,rich,scanner,strings,versioninfo,views,walker,wrapjson}; do [ -x $b ] && OBJS="$OBJS -object $b"; done
 $BIN/llvm-cov report $OBJS -instr-profile=$P/all.profdata -ignore-filename-regex='(registry|rustc|harness)' 2>/dev/null > $V/.cache/coverage-report.txt
 $BIN/llvm-cov show $OBJS -instr-profile=$P/all.profdata -ignore-filename-regex='(registry|rustc|harness)' -show-line-counts-or-regions 2>/dev/null > $V/.cache/coverage-show.txt
-tail -n +1 $V/.cache/coverage-report.txt | awk '{print $1, $(NF-3), $(NF-2), $(NF-1)}' | column -t | head -80
+grep -E "^/?repo/" $V/.cache/coverage-report.txt | awk '{printf "%-44s lines=%s missed=%s %s\n", $1, $8, $9, $10}' 
